@@ -17,3 +17,7 @@ open Pcore.Dispatch
 #print axioms Alpha.C16_newm
 #print axioms Alpha.C16_ctor_no_fault
 #print axioms Alpha.C16_new_struct
+#print axioms C16_call_stateless
+#print axioms C16_call_history_free
+#print axioms C16_runSeq_first
+#print axioms C16_fn_facts
